@@ -124,7 +124,7 @@ fn sweep(ctx: &Ctx, scope: &str, input: &[u8], base: &Io, call: &dyn Fn(&[u8], &
 }
 
 fn small_block(ctx: &Ctx) {
-    let max_len = ctx.tier.pick(6, 8);
+    let max_len = ctx.tier.pick(6, 9);
     let mut work = Vec::new();
     for c in 1..=3usize {
         for len in 0..=max_len {
